@@ -1082,15 +1082,19 @@ class BaseDAGExecution(Generic[P, RVDAG]):
                 to_cache_results = results
             pickle.dump(to_cache_results, f, protocol=pickle.HIGHEST_PROTOCOL, fix_imports=False)
 
-    def _pre_call(self) -> None:
+    def _pre_call(self) -> StrictDict[Identifier, Any]:
         if self.executed:
             raise TawaziUsageError("DAGExecution object has already been executed.")
 
         if self.from_cache:
             with open(self.from_cache, "rb") as f:
                 cached_results = pickle.load(f)  # noqa: S301
-            for node in self.cached_nodes:
-                self.results = cached_results[node.id]
+            # the scheduler skips every ExecNode whose result is already known
+            results = StrictDict(self.dag.results)
+            for id_, result in cached_results.items():
+                results.force_set(id_, result)
+            return results
+        return self.dag.results
 
     def _post_call(self) -> RVDAG:
         # mark as executed. Important for the next step
@@ -1130,12 +1134,12 @@ class DAGExecution(BaseDAGExecution[P, RVDAG]):
         Returns:
             RVDAG: the return value of the DAG's Execution
         """
-        self._pre_call()
+        results = self._pre_call()
 
         # 2. Execute the scheduler on a copy of the graph: the scheduler consumes the graph it is given
         #  and a run that raised must not leave a partially consumed graph behind
         self.xn_dict, self.results, self.profiles = self.dag.run_subgraph(
-            deepcopy(self.graph), self.results, *args
+            deepcopy(self.graph), results, *args
         )
 
         return self._post_call()
@@ -1166,12 +1170,12 @@ class AsyncDAGExecution(BaseDAGExecution[P, RVDAG]):
         Returns:
             RVDAG: the return value of the DAG's Execution
         """
-        self._pre_call()
+        results = self._pre_call()
 
         # 2. Execute the scheduler on a copy of the graph: the scheduler consumes the graph it is given
         #  and a run that raised must not leave a partially consumed graph behind
         self.xn_dict, self.results, self.profiles = await self.dag.run_subgraph(
-            deepcopy(self.graph), self.results, *args
+            deepcopy(self.graph), results, *args
         )
 
         return self._post_call()
